@@ -84,6 +84,10 @@ def fam_functions():
     out.append(("fn_nested_bound", HEADER + "def area(wa, ha):\n    acc = 0\n    for ia in range(wa):\n        for ib in range(ha):\n            acc = acc + ia + 1\n    return acc\nwhile True:\n    d1.Setting = area(d0.Setting, 2) + area(2, d0.Setting)\n    yield_()\n"))
     out.append(("fn_return_in_trailing_loop", HEADER + "def fa(xa):\n    kk = 0\n    while kk < 3:\n        kk = kk + 1\n        d1.Setting = kk\n        if kk >= xa:\n            return\ndef fb(xa):\n    for idx in range(3):\n        d2.Setting = idx\n        if idx == xa:\n            return\nwhile True:\n    fa(d0.Setting)\n    fa(2)\n    fb(d0.Setting)\n    fb(1)\n    d3.On = 1\n    yield_()\n"))
     out.append(("fn_nested_call_later_arg", HEADER + "def scale(xa):\n    return xa * 2\ndef show(xa, xb):\n    d1.Setting = xa\n    d2.Setting = xb\n    return xa + xb\nwhile True:\n    vn = d0.Setting\n    d3.Setting = show(vn, scale(vn + 10)) + show(scale(1), vn)\n    yield_()\n"))
+    out.append(("fn_branch_and_link", HEADER + "def alarm():\n    d1.On = 1\ndef check(level):\n    bgtal(level, 1, \"alarm\")\n    d2.Setting = level\nwhile True:\n    check(d0.Setting)\n    check(2)\n    alarm()\n    alarm()\n    yield_()\n"))
+    out.append(("fn_tail_to_once_called", HEADER + "def leaf(xa):\n    d1.Setting = xa\ndef outer(xa):\n    d2.Setting = xa\n    leaf(xa + 1)\nwhile True:\n    outer(d0.Setting)\n    outer(2)\n    d3.On = 1\n    yield_()\n"))
+    out.append(("fn_once_called_tail", HEADER + "def gg(xa):\n    d1.Setting = xa\ndef once(xa):\n    d2.Setting = xa\n    gg(xa + 1)\nwhile True:\n    once(d0.Setting)\n    gg(5)\n    d3.On = 1\n    yield_()\n"))
+    out.append(("fn_forlist_once", HEADER + "def aloop(xa):\n    for val in [10, 20]:\n        d1.Setting = val + xa\ndef zlast(xa):\n    d2.Setting = xa\nwhile True:\n    aloop(d0.Setting)\n    zlast(1)\n    zlast(2)\n    yield_()\n"))
     out.append(("fn_uncalled", HEADER + "def fa(xa):\n    return xa + 1\ndef fnever(xa):\n    d3.Setting = xa\n    return 0\nwhile True:\n    d1.Setting = fa(d0.Setting)\n    yield_()\n"))
     return out
 
